@@ -10,9 +10,9 @@ after every command in the order of the real modification times, so only the ord
 
 A command (`step`) is one process: `load` every stack (accept the native-flavor cache file or rebuild from
 the database and save every flavor found — the rule of D16), run the command of `Db.lean` on that view,
-and apply its effects in order: database effects change `db` and `touch`, write-through effects change the
-process's view, `save` writes the cache file of the stack from the view.  A crash cuts the trace right
-after the k-th `Database` mutation. -/
+and apply its effects in order, each in three parts: the `Database` mutation changes `db` and `touch`, the
+write-through changes the process's view, `save` writes the cache file of the stack from the view.  A crash
+cuts the trace right after the `Database` part of the k-th effect. -/
 namespace EupsModel.Cache
 open EupsModel.Db
 
@@ -129,19 +129,19 @@ def load (w : World) (u : User) (self : Flav) : Spec × List (List Flav) × Worl
 
 /-- the product directory an effect writes in -/
 def effKey : Eff → Option (Nat × Name)
-  | .dbDeclare d _ => some (d.stack, d.name)
-  | .dbUndeclare s n _ _ => some (s, n)
-  | .dbAssign s _ n _ _ => some (s, n)
-  | .dbUnassign s _ n _ => some (s, n)
-  | _ => none
+  | .declare d _ => some (d.stack, d.name)
+  | .undeclare s n _ _ => some (s, n)
+  | .assign s _ n _ _ => some (s, n)
+  | .unassign s _ n _ => some (s, n)
+  | .rmTree _ => none
 
 /-- does the `Database` call rewrite or remove a file (an unassign of a tag that is not there does not) -/
 def effWrites (db : Spec) : Eff → Bool
-  | .dbDeclare _ _ => true
-  | .dbUndeclare s n v f => db.hasDecl s n v f
-  | .dbAssign s _ n f v => db.hasDecl s n v f
-  | .dbUnassign s t n f => db.hasTag s t n f
-  | _ => false
+  | .declare _ _ => true
+  | .undeclare s n v f => db.hasDecl s n v f
+  | .assign s _ n f v => db.hasDecl s n v f
+  | .unassign s t n f => db.hasTag s t n f
+  | .rmTree _ => false
 
 def setTouch (ts : List Touch) (s : Nat) (n : Name) (t : Option Nat) : List Touch :=
   let rest := ts.filter fun x => !(x.stack == s && x.name == n)
@@ -149,28 +149,49 @@ def setTouch (ts : List Touch) (s : Nat) (n : Name) (t : Option Nat) : List Touc
   | none => rest
   | some t => ⟨s, n, t⟩ :: rest
 
-/-- one effect of a process of user `u` whose in-memory view is `m` (`fixed`: with the D1 repair) -/
-def applyW (fixed : Bool) (u : User) (wm : World × Spec) (e : Eff) : World × Spec :=
-  let (w, m) := wm
-  match e with
-  | .save s f => ({ w with caches := setCache w.caches ⟨u, s, f, restrict m s f, w.now⟩, now := w.now + 1 }, m)
-  | .rmTree d => ({ w with dirs := w.dirs.filter fun x => x.dir != d }, m)
-  | _ =>
-    match effKey e with
-    | none => (w, applyMemG fixed e m)
-    | some (s, n) =>
-      if effWrites w.db e then
-        let db' := applyDb e w.db
-        let alive := db'.decls.any fun d => d.stack == s && d.name == n
-        ({ w with db := db', touch := setTouch w.touch s n (if alive then some w.now else none), now := w.now + 1 }, m)
-      else (w, m)
+/-- first part of an effect: the `Database` mutation (files and their modification times) -/
+def applyDbW (w : World) (e : Eff) : World :=
+  match effKey e with
+  | none => w
+  | some (s, n) =>
+    if effWrites w.db e then
+      let db' := applyDb e w.db
+      let alive := db'.decls.any fun d => d.stack == s && d.name == n
+      { w with db := db', touch := setTouch w.touch s n (if alive then some w.now else none), now := w.now + 1 }
+    else w
 
-/-- the trace up to and including the k-th `Database` mutation (`k ≥ 1`); the whole trace when there are
-fewer -/
-def cutAfterDb : List Eff → Nat → List Eff
-  | [], _ => []
-  | _, 0 => []
-  | e :: es, k + 1 => e :: (if e.isDb then (if k = 0 then [] else cutAfterDb es k) else cutAfterDb es (k + 1))
+/-- last part of an effect: `save(flavor)` of the stack's cache file from the in-memory view `m'`;
+`rmTree` removes the directory -/
+def applySaveW (u : User) (w : World) (m m' : Spec) (e : Eff) : World :=
+  match e with
+  | .rmTree d => { w with dirs := w.dirs.filter fun x => x.dir != d }
+  | _ =>
+    match e.saves m with
+    | none => w
+    | some (s, f) => { w with caches := setCache w.caches ⟨u, s, f, restrict m' s f, w.now⟩, now := w.now + 1 }
+
+/-- one whole effect of a process of user `u` whose in-memory view is `m` (`fixed`: with the D1 repair):
+database, write-through, save -/
+def applyW (fixed : Bool) (u : User) (wm : World × Spec) (e : Eff) : World × Spec :=
+  let m' := applyMemG fixed e wm.2
+  (applySaveW u (applyDbW wm.1 e) wm.2 m' e, m')
+
+/-- a trace cut by a crash right after the k-th `Database` mutation (`k ≥ 1`): the effects applied in full and
+the one of which only the database part happens; the whole trace when it has fewer than k mutations -/
+def cutAfterDb : List Eff → Nat → List Eff × Option Eff
+  | [], _ => ([], none)
+  | _, 0 => ([], none)
+  | e :: es, k + 1 =>
+    if e.isDb then
+      (if k = 0 then ([], some e) else let r := cutAfterDb es k; (e :: r.1, r.2))
+    else let r := cutAfterDb es (k + 1); (e :: r.1, r.2)
+
+/-- replay of a trace, possibly cut -/
+def replay (fixed : Bool) (u : User) (wm : World × Spec) (es : List Eff) (last : Option Eff) : World :=
+  let wm' := es.foldl (applyW fixed u) wm
+  match last with
+  | none => wm'.1
+  | some e => applyDbW wm'.1 e
 
 /-! ## commands of a history -/
 
@@ -194,11 +215,10 @@ def stepG (fixed : Bool) (w : World) : WCmd → StepResult
   | .run u c crash =>
     let (m, fl, w1) := load w u c.self
     let (out, p) := run w.nst c ⟨w1.db, m, w1.dirs, []⟩
-    let effs := match crash with
-      | none => p.tr
+    let cut : List Eff × Option Eff := match crash with
+      | none => (p.tr, none)
       | some k => cutAfterDb p.tr k
-    let crashed := effs.length < p.tr.length
-    ⟨out, crashed, fl, m, effs, (effs.foldl (applyW fixed u) (w1, m)).1⟩
+    ⟨out, cut.2.isSome, fl, m, cut.1 ++ cut.2.toList, replay fixed u (w1, m) cut.1 cut.2⟩
 
 def step (w : World) (c : WCmd) : World := (stepG true w c).w
 def stepPinned (w : World) (c : WCmd) : World := (stepG false w c).w
